@@ -1,1 +1,2 @@
+pub mod direct;
 pub mod duplex;
